@@ -172,6 +172,9 @@ static sqf::runtime::runtime::result execute_do(sqf::runtime::runtime& runtime, 
                 "    " << "\x1B[36mEXIT execute_do\033[0m as max runtime (\x1B[90m" << runtime.configuration().max_runtime.count() << "ms\033[0m) was reached" << std::endl;
 #endif // DF__SQF_RUNTIME__ASSEMBLY_DEBUG_ON_EXECUTE
             runtime.__logmsg(logmessage::runtime::MaximumRuntimeReached((*instruction)->diag_info(), runtime.configuration().max_runtime));
+            // the diagnostic is the report: do not leave the error flag behind for whatever gets executed next on this VM
+            runtime_error = false;
+            runtime.log_messages.clear();
             runtime.exit(0);
             return sqf::runtime::runtime::result::ok;
         }
